@@ -90,6 +90,10 @@ struct Stats {
     succeeded_on_err: u64,
     plan_errors: u64,
     methods: BTreeMap<String, u64>,
+    /// the case is being evaluated on a table whose string column is Utf8View / dictionary encoded
+    string_variant: bool,
+    variant_cases: u64,
+    variant_plan_errors: u64,
 }
 
 /// Compare one engine outcome with the reference.  `rows[j]` = table row of batch position j,
@@ -119,7 +123,14 @@ fn check(out: &Outcome, rows: &[usize], checked: &[bool], exp: &[i64], kind: &st
                 return Some(json!({"what": format!("result has {} rows for a batch of {}", a.len(), rows.len())}));
             }
             let want_dt = ast::kind_dt(kind);
-            if a.data_type() != &want_dt && checked.iter().any(|c| *c) {
+            // with Utf8View / dictionary string columns the engine may keep the column's string encoding
+            let stringish = |dt: &arrow::datatypes::DataType| match dt {
+                arrow::datatypes::DataType::Utf8 | arrow::datatypes::DataType::Utf8View | arrow::datatypes::DataType::LargeUtf8 => true,
+                arrow::datatypes::DataType::Dictionary(_, v) => matches!(v.as_ref(), arrow::datatypes::DataType::Utf8 | arrow::datatypes::DataType::Utf8View | arrow::datatypes::DataType::LargeUtf8),
+                _ => false,
+            };
+            let type_ok = a.data_type() == &want_dt || (kind == "s" && st.string_variant && stringish(a.data_type()));
+            if !type_ok && checked.iter().any(|c| *c) {
                 return Some(json!({"what": format!("result data type {} but the expression has type {}", a.data_type(), want_dt)}));
             }
             for j in 0..rows.len() {
@@ -213,6 +224,11 @@ fn run_case(case: &Value, tbl: &Tbl, phys: &Arc<dyn PhysicalExpr>, env: &Env, se
         // the selected rows alone (built with `take`, independent of the filter kernel)
         let pos: Vec<u32> = (0..rows.len()).filter(|j| checked[*j]).map(|j| j as u32).collect();
         let sub_rows: Vec<usize> = pos.iter().map(|j| rows[*j as usize]).collect();
+        if sub_rows.is_empty() && st.string_variant {
+            // a zero-row batch of a dictionary-encoded column trips an assertion inside the arrow kernels (not the
+            // code under test); empty batches are exercised on the Utf8 table
+            return;
+        }
         let sub = take_record_batch(b, &UInt32Array::from(pos)).unwrap();
         let o2 = eval(phys, &sub, None);
         let ok = vec![true; sub_rows.len()];
@@ -278,6 +294,14 @@ fn run_case(case: &Value, tbl: &Tbl, phys: &Arc<dyn PhysicalExpr>, env: &Env, se
     fails
 }
 
+fn uses_col(e: &Value, i: i64) -> bool {
+    match e {
+        Value::Object(m) => (m.get("op").map(|o| o == "col").unwrap_or(false) && m.get("i").and_then(|x| x.as_i64()) == Some(i)) || m.values().any(|v| uses_col(v, i)),
+        Value::Array(a) => a.iter().any(|v| uses_col(v, i)),
+        _ => false,
+    }
+}
+
 fn method_tags(phys: &Arc<dyn PhysicalExpr>) -> Vec<String> {
     let dbg = format!("{phys:?}");
     let disp = format!("{phys}");
@@ -324,6 +348,14 @@ pub fn main() {
             let header = &header;
             hs.push(s.spawn(move || {
                 let tables = load_tables(header, true);
+                let variants: Vec<(&str, Tbl)> = ["view", "dict"]
+                    .iter()
+                    .map(|enc| {
+                        let (schema, batch) = ast::table_batch_enc(&header["tables"]["A"], true, enc);
+                        let dfschema = DFSchema::try_from(schema.as_ref().clone()).unwrap();
+                        (*enc, Tbl { schema, dfschema, batch })
+                    })
+                    .collect();
                 let ctx = SessionContext::new();
                 let mut st = Stats::default();
                 let mut outv = vec![];
@@ -356,6 +388,31 @@ pub fn main() {
                     if !fails.is_empty() {
                         outv.push(json!({"id": c["id"], "p": c["p"], "physical": format!("{phys}"), "fails": fails}));
                     }
+                    // the same case over other physical encodings of the string column (Utf8View, dictionary)
+                    if c["tbl"] == "A" && uses_col(&c["e"], 3) {
+                        for (enc, vt) in &variants {
+                            let built = catch_unwind(AssertUnwindSafe(|| {
+                                ast::to_expr(&c["e"], env).and_then(|e| ctx.create_physical_expr(e, &vt.dfschema).map_err(|e| e.to_string()))
+                            }));
+                            let phys = match built {
+                                Ok(Ok(p)) => p,
+                                _ => {
+                                    st.variant_plan_errors += 1;
+                                    continue;
+                                }
+                            };
+                            st.variant_cases += 1;
+                            st.string_variant = true;
+                            let mut fails = run_case(c, vt, &phys, env, seed, &mut st);
+                            st.string_variant = false;
+                            if !fails.is_empty() {
+                                for f in fails.iter_mut() {
+                                    f["string_encoding"] = json!(enc);
+                                }
+                                outv.push(json!({"id": c["id"], "p": c["p"], "physical": format!("{phys}"), "fails": fails, "string_encoding": enc}));
+                            }
+                        }
+                    }
                 }
                 (outv, st)
             }));
@@ -371,6 +428,8 @@ pub fn main() {
         tot.err_allowed += st.err_allowed;
         tot.succeeded_on_err += st.succeeded_on_err;
         tot.plan_errors += st.plan_errors;
+        tot.variant_cases += st.variant_cases;
+        tot.variant_plan_errors += st.variant_plan_errors;
         for (k, v) in st.methods {
             *tot.methods.entry(k).or_insert(0) += v;
         }
@@ -378,6 +437,7 @@ pub fn main() {
     util::write_ndjson(&out, &results);
     let failing = results.iter().filter(|r| r.get("fails").is_some()).count();
     util::summary(json!({"cases": cases.len(), "evaluations": tot.evals, "rows_compared": tot.rows_compared, "failing_cases": failing,
-                         "plan_errors": tot.plan_errors, "engine_errors_where_reference_errs": tot.err_allowed,
+                         "plan_errors": tot.plan_errors, "string_encoding_variant_cases": tot.variant_cases,
+                         "string_encoding_variant_plan_errors": tot.variant_plan_errors, "engine_errors_where_reference_errs": tot.err_allowed,
                          "engine_succeeded_where_reference_errs": tot.succeeded_on_err, "strategies": tot.methods}));
 }
